@@ -78,7 +78,7 @@ def register(reg):
 
 def view_volume(eng, p, R, D, h, v, t):
     """(in_volume formula, pieces) for target t seen from p with rotation R (None = global frame)"""
-    d = [a - b for a, b in zip(t, p)]
+    d = [z3.simplify(a - b) for a, b in zip(t, p)]
     w = apply3(INV(R), d) if R is not None else d
     dist = G.hyp_term(eng, d)
     a = ATAN2(w[1], w[0]) - HALF_PI
@@ -118,13 +118,13 @@ class Occluder:
         self.obj.fields.update(occupiedSpace=space, distanceTo=BuiltinFn("distanceTo", lambda point: me.dist))
 
 
-def viewer_inputs(I, env, oriented, tkind, ray_count=(7, 7), scaling=False):
+def viewer_inputs(I, env, oriented, tkind, ray_count=(7, 7), scaling=False, rot_axioms=()):
     eng = I.eng
     G.use(eng, "atan2", "hypot", "asin")
     p = input_vector(eng, "position", I)
     o = None
     if oriented:
-        t_ = OrientationT()
+        t_ = OrientationT(axioms=rot_axioms)  # code and specification apply the same inverse rotation: no group law is needed
         o = t_.fresh(eng, "orientation", I)
         eng.input_syms.append(("orientation", t_, o))
     D = input_real(eng, "visibleDistance", lo=0)
@@ -138,6 +138,11 @@ def viewer_inputs(I, env, oriented, tkind, ray_count=(7, 7), scaling=False):
         tv = target.fields["position"]
     # a target exactly at the camera position has no direction (the code divides by a zero norm: nan)
     eng.assume(z3.Or(*[a != b for a, b in zip(co(tv), co(p))]))
+    if oriented:
+        # t != p  =>  R^-1 (t - p) != 0 : instances of the listed action laws (R (R^-1 v) = v, R 0 = 0)
+        d = [z3.simplify(a - b) for a, b in zip(co(tv), co(p))]
+        G.instance(eng, "L-rot.apply_undoes_inverse", rot(o), *d)
+        G.instance(eng, "L-rot.zero_vector_fixed", rot(o))
     env.vars.update(position=p, orientation=o, visibleDistance=D, viewAngles=(h, v), rayCount=ray_count, rayDensity=input_real(eng, "rayDensity", lo=0), distanceScaling=scaling, target=target, occludingObjects=PList([]), _tv=tv)
 
 
@@ -282,7 +287,7 @@ def register_point_branch(reg):
         eng = I.eng
         WORLD.clear()
         oriented = eng.choose(2, "oriented viewer") == 1
-        viewer_inputs(I, env, oriented, "Vector")
+        viewer_inputs(I, env, oriented, "Vector", rot_axioms=("rot",))
         occ = [Occluder(I, 0, 1)]
         env.vars.update(occludingObjects=PList([oc.obj for oc in occ]), _occ=occ)
         eng.input_syms.append(("case", C.Const(None), f"{'oriented' if oriented else 'unoriented'}"))
